@@ -457,8 +457,8 @@ def rule_e(ck, R):
             effs = tuple(n for n in names if n != 'validate')
             rr = fmt(p.ret) if p.ret is not None else ''
             import re
-            rr = re.sub(r'#\d+', '#', rr)
-            conds = tuple(re.sub(r'#\d+', '#', c) for c in conds)
+            rr = re.sub(r'[#@]\d+', '#', rr)
+            conds = tuple(re.sub(r'[#@]\d+', '#', c) for c in conds)
             sig[mode].add((conds, effs, rr))
     # honesty of the reported status: SUCCESS can only be what the area write reported; every path that stops before
     # the write reports a failure code
